@@ -4,10 +4,41 @@
 package proto
 
 import (
+	"encoding/binary"
 	"fmt"
 	"net"
 	"strconv"
+
+	"github.com/pion/stun/v3"
 )
+
+const (
+	xorAddressHeaderSize = 4 // reserved byte, family, x-port
+	xorAddressFamilyIPv4 = 0x01
+	xorAddressFamilyIPv6 = 0x02
+)
+
+// checkXORAddressSize verifies that an XOR-*-ADDRESS attribute holds exactly one address of its
+// family. The generic decoder only rejects values that are too long, so a truncated address
+// would otherwise be accepted and padded with zero bytes.
+func checkXORAddressSize(m *stun.Message, attrType stun.AttrType) error {
+	v, err := m.Get(attrType)
+	if err != nil {
+		return err
+	}
+	if len(v) < xorAddressHeaderSize {
+		return nil // reported by the decoder
+	}
+
+	switch binary.BigEndian.Uint16(v[0:2]) {
+	case xorAddressFamilyIPv4:
+		return stun.CheckSize(attrType, len(v), xorAddressHeaderSize+net.IPv4len)
+	case xorAddressFamilyIPv6:
+		return stun.CheckSize(attrType, len(v), xorAddressHeaderSize+net.IPv6len)
+	default:
+		return nil // unknown family: reported by the decoder
+	}
+}
 
 // Addr is ip:port.
 type Addr struct {
